@@ -39,6 +39,9 @@ pub fn action_texts() -> Vec<String> {
         "rock x with 7\n",
         "rock x with 7, \"s\"\n",
         "rock x with y\n",
+        "rock x with 1, x\n",
+        "rock x with roll x, roll x\n",
+        "rock y with x, roll x\n",
         "rock x like a rolling stone\n",
         "rock x at 0 with 5\n",
         "roll x\n",
